@@ -38,6 +38,7 @@ type verifCase struct {
 	Ops  []verifOp `json:"ops"`
 	N    int       `json:"n"`
 	Opts verifOpts `json:"opts"`
+	Mode string    `json:"mode"` // connfail: eof | reset | hang
 }
 
 // verifBrk records what the wrapper tells its breaker, and delegates to the real one.
@@ -747,6 +748,8 @@ func verifCtx(form string) (context.Context, context.CancelFunc) {
 		return ctx, cancel
 	case "deadline":
 		return context.WithDeadline(context.Background(), time.Unix(1, 0))
+	case "timeout": // live now, gone in 40 ms (peers that never answer)
+		return context.WithTimeout(context.Background(), 40*time.Millisecond)
 	}
 	return context.Background(), func() {}
 }
@@ -1103,28 +1106,86 @@ func verifBreaker(c verifCase) any {
 	cancel()
 	canceledPhase := phase(func() error { _, err := w.GetCtx(cctx, "k"); return err })
 	s.Close()
-	// dead server behind a FRESH wrapper (own breaker, no earlier successes in its window)
-	s2, err := miniredis.Run()
-	if err != nil {
-		return map[string]any{"error": err.Error()}
-	}
-	w2 := New(s2.Addr())
+	// nothing listens (connection refused) behind a FRESH wrapper (own breaker, no earlier successes in its window).
+	// Port 1 rather than the port of a miniredis closed a moment ago: driver processes run in parallel and another
+	// one may be handed that port for a server of its own.
+	w2 := New("127.0.0.1:1")
 	brk2 := &verifBrk{inner: w2.brk}
 	w2.brk = brk2
-	defer func() {
-		if cl, err := getClient(w2); err == nil {
-			_ = cl.Close()
-		}
-	}()
-	_, _ = w2.Get("k")
-	s2.Close()
 	deadPhase := []any{}
 	for i := 0; i < c.N; i++ {
 		brk2.reset()
 		_, err := w2.Get("k")
 		deadPhase = append(deadPhase, []any{c12raw.C12Err(err), brk2.told()})
 	}
-	return map[string]any{"nil": nilPhase, "canceled": canceledPhase, "dead": deadPhase}
+	out := map[string]any{"nil": nilPhase, "canceled": canceledPhase, "dead": deadPhase}
+	// peers that ACCEPT the connection, read the request and then hang up (bare io.EOF after go-redis' retries),
+	// abort (connection reset) or never answer: c.N calls cycling over the command kinds of c.Ops, each phase on
+	// a fresh wrapper with the real breaker
+	if len(c.Ops) > 0 {
+		fails := map[string]any{}
+		for _, mode := range []string{"eof", "reset", "hang"} {
+			addr, stop, err := c12raw.C12FakeServer(mode)
+			if err != nil {
+				return map[string]any{"error": err.Error()}
+			}
+			w3 := New(addr)
+			brk3 := &verifBrk{inner: w3.brk}
+			w3.brk = brk3
+			ph := []any{}
+			for i := 0; i < c.N; i++ {
+				op := c.Ops[i%len(c.Ops)]
+				form := "ctx"
+				if mode == "hang" {
+					form = "timeout"
+				}
+				ctx, cancel := verifCtx(form)
+				brk3.reset()
+				_, err, _, _ := verifWrap(w3, nil, ctx, false, op.M, op.A)
+				cancel()
+				ph = append(ph, []any{c12raw.C12Err(err), brk3.told(), op.M})
+			}
+			stop()
+			fails[mode] = ph
+		}
+		out["fails"] = fails
+	}
+	return out
+}
+
+// verifConnFail: per-command accounting of connection-level failures.  Every operation of the case c.N times on a
+// fresh wrapper whose peer fails in mode c.Mode (see C12FakeServer); the breaker only records (never rejects).
+func verifConnFail(c verifCase) any {
+	VerifResetClients()
+	defer VerifResetClients()
+	addr, stop, err := c12raw.C12FakeServer(c.Mode)
+	if err != nil {
+		return map[string]any{"error": err.Error()}
+	}
+	defer stop()
+	runs := []any{}
+	for _, op := range c.Ops {
+		w := New(addr)
+		brk := &verifBrk{inner: w.brk, pass: true}
+		w.brk = brk
+		run := []any{}
+		for k := 0; k < c.N; k++ {
+			form := op.Form
+			if c.Mode == "hang" {
+				form = "timeout"
+			}
+			ctx, cancel := verifCtx(form)
+			brk.reset()
+			_, err, _, ok := verifWrap(w, nil, ctx, false, op.M, op.A)
+			cancel()
+			if !ok {
+				return map[string]any{"error": "unknown method " + op.M}
+			}
+			run = append(run, []any{c12raw.C12Err(err), brk.told()})
+		}
+		runs = append(runs, run)
+	}
+	return map[string]any{"runs": runs}
 }
 
 func TestVerifDriver(t *testing.T) {
@@ -1143,6 +1204,8 @@ func TestVerifDriver(t *testing.T) {
 			return verifSha(c)
 		case "runs":
 			return verifRuns(c)
+		case "connfail":
+			return verifConnFail(c)
 		}
 		return map[string]any{"error": "unknown kind " + c.Kind}
 	})
